@@ -140,13 +140,23 @@ def outTo (t : Target) (sender : Peer) (e : Option Entry) (k : MsgKind) (r : Req
   | some p => [Ev.out p k r]
   | none => []
 
+/-- value of an operand of the filter's comparison -/
+def evalPeer (t : PeerTerm) (sender : Peer) (e : Entry) : Peer :=
+  match t with
+  | .sender => sender
+  | .entryPeer => e.peer
+
+/-- the filter keeps a response whose request is in the table unless `lhs != rhs` -/
+def filterKeeps (c : FilterCond) (sender : Peer) (e : Entry) : Bool :=
+  evalPeer c.lhs sender e == evalPeer c.rhs sender e
+
 /-! ### the stages, one response at a time.  Result: new entry, (events, keep the response?) -/
 
 def stageOne (op : StageOp) (q : Peer) (x : Resp) (e? : Option Entry) : Option Entry × (List Ev × Bool) :=
   match op with
   | .filterForPeer =>
     match e? with
-    | some e => (some e, ([], e.peer == q))
+    | some e => (some e, ([], filterKeeps ReqPipeline.filterCond q e))
     | none => (none, ([], false))
   | .extensions =>
     let hookEv := [Ev.hook q x.id x.status]
